@@ -114,11 +114,18 @@ def _parse_file(path, nodes, meta, deftags):
                     meta['serves'] = arg.split()
                 elif word == 'tags':
                     tags = arg.split()
+                elif word in ('rlimit', 'tier'):
+                    meta[word] = arg
                 elif word == 'include':
                     _parse_file(os.path.join(CONTRACTS, arg), nodes, meta, tags)
                 elif word == 'extract':
+                    alt = None
+                    if ' else ' in arg:
+                        arg, altarg = arg.split(' else ', 1)
+                        alt = tuple(altarg.split(None, 1))
                     f, sel = arg.split(None, 1)
                     cur = Item(meta['unit'], f, sel.strip(), ln)
+                    cur.alt = alt
                     cur.tags = list(tags)
                     cur.upath = path
                     curblock = None
@@ -457,8 +464,21 @@ def render_item(item, repo=None, vac=False, variant=None):
     m = rl.code_mask(src)
     try:
         s, e = rl.find_item(src, m, item.selector)
+        item.used_alt = False
     except (LookupError, ValueError) as ex:
-        raise Undecided('lost anchor %s %s: %s' % (item.file, item.selector, ex))
+        if getattr(item, 'alt', None) and '0 fns match' in str(ex):
+            # the impl does not define the method: the trait's default body applies (Rust semantics)
+            path = os.path.join(repo, item.alt[0])
+            item.file = item.alt[0]
+            src = open(path).read()
+            m = rl.code_mask(src)
+            try:
+                s, e = rl.find_item(src, m, item.alt[1].strip())
+            except (LookupError, ValueError) as ex2:
+                raise Undecided('lost anchor %s %s: %s' % (item.alt[0], item.alt[1], ex2))
+            item.used_alt = True
+        else:
+            raise Undecided('lost anchor %s %s: %s' % (item.file, item.selector, ex))
     start_line = rl.line_of(src, s)
     item.repo_line = start_line
     item.repo_end_line = rl.line_of(src, e)
@@ -753,20 +773,25 @@ def generate(unit_path, repo=None, vac=False, variant=None):
             rendered = render_item(it, repo, vac, variant)
             lines.extend(rendered)
             items.append(it)
-    # literal-text labels: `//# label tags` on literal lines
-    pend = []
-    for text, org in lines:
+    # literal-text labels: `//# label tags` on literal lines; the label also covers the preceding lines of a
+    # multi-line clause, back to the line that starts it (assert / ensures / requires / invariant / decreases)
+    for idx, (text, org) in enumerate(lines):
         if org['k'] != 'unit':
-            pend = []
             continue
-        pend.append(org)
         mm = re.search(r'//#\s*(\S+)((?:\s+C\d\d)*)\s*$', text)
-        if mm:
-            for o in pend[-1:]:
-                o['label'] = mm.group(1)
-                if mm.group(2).split():
-                    o['tags'] = mm.group(2).split()
-            pend = []
+        if not mm:
+            continue
+        j = idx
+        while True:
+            o = lines[j][1]
+            if o['k'] != 'unit' or (j != idx and o.get('label')):
+                break
+            o['label'] = mm.group(1)
+            if mm.group(2).split():
+                o['tags'] = mm.group(2).split()
+            if re.search(r'\b(assert|ensures|requires|invariant|invariant_except_break|decreases)\b', lines[j][0].split('//#')[0]) or idx - j >= 8 or j == 0:
+                break
+            j -= 1
     return meta, lines, items
 
 
